@@ -9,6 +9,7 @@ import (
 	"reflect"
 	"sort"
 	"strings"
+	"sync"
 
 	"sigs.k8s.io/kustomize/kyaml/kio"
 	"sigs.k8s.io/kustomize/kyaml/kio/filters"
@@ -236,6 +237,19 @@ func scalarPool20(rng *Rng, nRandom int) string {
 		"2001-13-01", "12345-1", "123-4", "20010101", "1:30", "a b", "a: b", "- x", "[1]", "{a: 1}", "# c", "'1'", "\"1\"", "*x",
 		"&x", "!x", "|", ">", "%x", "@x", "`x", "x#y", "x #y", "<<", "=", "0.0.0.0", "1.0", "-0", "+0", "-0.0", "0e0", "0x0", "0o0",
 		"0b0", "00x1", "0xx1", "0x_1", "1e+", "1e-", "+.e1", "-.5e-2", "Yes1", "on1", "1on", "nULL1", ".inf1", ".nan.", "NO.", "y.",
+		// inner ':' ',' '=' '@' '%' (inside the fragment) and their out-of-fragment neighbours
+		"a:b", "a:", "a: b", ":a", "nginx:1.0.0", "redis:6", "1:2", "01:30", "1:30:00", "x:y:z", "x:y:", "http://x/y", "a,b", "1,5",
+		"1,000", ",a", "a=b", "=a", "a==", "1=1", "50%", "%x", "5%5", "a@b", "@a", "1@2", "yes:", "yes:no", "on,off", "true=1",
+		"0x1F:", "1e3,", "~:", "~,", "y=", "n%", "null@", "1.5:", ".5,", "+1=", "-1%", "a:b,c=d@e%f",
+		// timestamps and near-timestamps (go-yaml v2 tries time.Parse after "dddd-")
+		"2001-12-14", "2001-12-14t21:59:43Z", "2001-12-14T21:59:43.10-05:00", "2001-12-14 21:59:43.10", "2001-2-3", "2001-02-30",
+		"2001-1-1T1:1:1Z", "0000-01-01", "9999-12-31", "2001-00-01", "2001-01-00", "20011-01-01", "201-01-01", "2001_01_01",
+		"2001-01-01x", "2001-01", "2001-", "2001--1", "1970-01-01T00:00:00Z",
+		// texts that are not one plain scalar as a document (IsValueNonString parses the whole text)
+		"a b", " a", "a ", "a\tb", "a #b", "a# b", "#a", "x: y", "x:  1", "- 1", "-  x", "? a", "[a, b]", "[]", "{}", "{a: b}", "a: [1]",
+		"\"a\"", "'a'", "\"1\"", "'yes'", "!!str 1", "!!int a", "&a 1", "*a", "|", ">-", "%YAML 1.1", "---", "--- 1", "...", "a\nb",
+		"1\n", "yes\n", "- a\n- b", "\t1", "1 2", "1, 2", "yes no", "null null", "~ ~", "@", "`", "a`b", "a|b", "a>b", "a<b", "a&b",
+		"a*b", "a!b", "a?b", "a[b", "a]b", "a{b", "a}b", "a'b", "a\"b", "a\\b", "é", "1é", "\u00e9",
 		"0777", "0778", "-0777", "-0778", "07_7", "1_2_3", "0o", "0oo7", "0b1_0", "0B_1", "1e0_1", "TRUE1", "True.", "~~", "~1"}
 	obs := []string{}
 	seen := map[string]bool{}
@@ -248,7 +262,7 @@ func scalarPool20(rng *Rng, nRandom int) string {
 	for _, v := range fixed {
 		add(v)
 	}
-	alphabet := "0123456789" + "0123456789" + "_.+-eExXoObB" + "aAfFyYnNtT~/"
+	alphabet := "0123456789" + "0123456789" + "_.+-eExXoObB" + "aAfFyYnNtT~/" + ":,=@%:."
 	if v := os.Getenv("C20_POOL_N"); v != "" {
 		fmt.Sscan(v, &nRandom)
 	}
@@ -981,14 +995,18 @@ func keySkel20(v interface{}, path string, wl bool) interface{} {
 }
 
 var typedKeyCache20 = map[string]string{}
+var typedKeyMu20 sync.Mutex
 
 // typedKey20: the key as YAML 1.1 / JSON reads it (`yes`, `on`, `true` are all the key "true"; `010` is "8").
 func typedKey20(k *yaml.Node) string {
 	if k.Kind != yaml.ScalarNode || k.Style != 0 || k.Tag == "!!str" && !kyaml.IsValueNonString(k.Value) {
 		return k.Value
 	}
-	if v, ok := typedKeyCache20[k.Value]; ok {
-		return v
+	typedKeyMu20.Lock()
+	v0, ok0 := typedKeyCache20[k.Value]
+	typedKeyMu20.Unlock()
+	if ok0 {
+		return v0
 	}
 	out := k.Value
 	if v, err := jsonValue20(k.Value + ": 0\n"); err == nil {
@@ -998,7 +1016,9 @@ func typedKey20(k *yaml.Node) string {
 			}
 		}
 	}
+	typedKeyMu20.Lock()
 	typedKeyCache20[k.Value] = out
+	typedKeyMu20.Unlock()
 	return out
 }
 
@@ -1577,8 +1597,50 @@ func known20Classes() map[string]bool {
 	return map[string]bool{}
 }
 
+// work20: one case with everything computed on the implementation (done in parallel by runBatch20);
+// the bookkeeping in record20 is sequential and in generation order, so the output is deterministic.
+type work20 struct {
+	c       case20
+	toModel bool
+	src     string
+	res     result20
+	vs      []verdict20
+	info    map[string]string
+}
+
+func runBatch20(r *Run, batch []*work20) {
+	workers := 8
+	ch := make(chan *work20)
+	done := make(chan bool)
+	for w := 0; w < workers; w++ {
+		go func() {
+			for j := range ch {
+				j.res = runImpl20(j.c, j.toModel)
+				if j.res.skipWhy != "read-error" && j.res.skipWhy != "empty-stream" {
+					j.vs, j.info = laws20(j.c)
+				}
+			}
+			done <- true
+		}()
+	}
+	for _, j := range batch {
+		ch <- j
+	}
+	close(ch)
+	for w := 0; w < workers; w++ {
+		<-done
+	}
+	for _, j := range batch {
+		record20(r, j)
+	}
+}
+
 func runOne20(r *Run, c case20, toModel bool, src string) {
-	res := runImpl20(c, true)
+	runBatch20(r, []*work20{{c: c, toModel: toModel, src: src}})
+}
+
+func record20(r *Run, j *work20) {
+	c, toModel, src, res := j.c, j.toModel, j.src, j.res
 	r.Count("source", src)
 	if res.skipWhy == "read-error" || res.skipWhy == "empty-stream" {
 		r.Count("outcome", res.skipWhy)
@@ -1627,7 +1689,7 @@ func runOne20(r *Run, c case20, toModel bool, src string) {
 	} else {
 		r.AddEval(c.Yaml, res.nontrivial)
 	}
-	vs, info := laws20(c)
+	vs, info := j.vs, j.info
 	if v, ok := info["comments"]; ok {
 		r.Count("comment_oracle", v)
 	}
@@ -1688,7 +1750,7 @@ func bucket20(n int) string {
 func runC20(r *Run, rng *Rng, tier string) error {
 	nModel, nLaw := 360, 1600
 	if tier == "thorough" {
-		nModel, nLaw = 6000, 40000
+		nModel, nLaw = 2400, 20000
 	}
 	r.Meta.Rule = "streams of 1-3 generated resource documents (workload / webhook / configmap / free-form shapes; whitelisted and other kinds; " +
 		"known + unknown field names in shuffled order; keyed and primitive lists incl. the whitelisted paths; adversarial scalars; " +
@@ -1699,22 +1761,34 @@ func runC20(r *Run, rng *Rng, tier string) error {
 	rng = rng.Fork().Fork()
 	r.shard = 30 // case terms are large (three node trees with comments per case): many small shards, evaluated in parallel
 	r.AddCase(tableCase20(), map[string]string{"kind": "table"}, true)
-	nPool := 400
+	nPool := 1500
 	if tier == "thorough" {
-		nPool = 8000
+		nPool = 12000
 	}
 	r.AddCase(scalarPool20(rng.Fork(), nPool), map[string]string{"kind": "scalar-resolution-pool"}, true)
 	for _, c := range loadCorpus20() {
 		runOne20(r, c, true, "corpus")
 	}
+	batch := []*work20{}
+	flush := func() {
+		runBatch20(r, batch)
+		batch = batch[:0]
+	}
 	for i := 0; i < nModel; i++ {
 		g := rng.Fork()
-		runOne20(r, genCase20(g), true, "generated-model")
+		batch = append(batch, &work20{c: genCase20(g), toModel: true, src: "generated-model"})
+		if len(batch) >= 256 {
+			flush()
+		}
 	}
 	for i := 0; i < nLaw; i++ {
 		g := rng.Fork()
-		runOne20(r, genCase20(g), false, "generated-laws")
+		batch = append(batch, &work20{c: genCase20(g), toModel: false, src: "generated-laws"})
+		if len(batch) >= 256 {
+			flush()
+		}
 	}
+	flush()
 	return nil
 }
 
